@@ -184,6 +184,7 @@ def check(s):
          "max_episode_steps is stored unchanged", s.loc("TimeLimit", "__init__"), key="stores-N", detail=show(pc.self_attrs.get("max_episode_steps", NONE)))
     # ---------------------------------------------------------------- C13.5 rescale / clip
     check_rescale(s)
+    check_constructors(s)
     # ---------------------------------------------------------------- C13.6 unwrapped
     b = s.builder(inline=set())
     for cls, want in (("AbstractWrapperState", "self.env_state.unwrapped"), ("AbstractWrapper", "self.env.unwrapped"), ("AbstractEnvState", "self"),
@@ -195,7 +196,7 @@ def check(s):
         s.ob("C13.6", f"{ci.name}.unwrapped", "unwrapped" not in ci.methods, "no wrapper (state) overrides `unwrapped`", P.loc(ci.module, ci.node), key="unwrapped-override")
     # ---------------------------------------------------------------- C13.7 adapters
     check_adapters(s)
-    for r_, n in (("C13.1", 95), ("C13.2", 14), ("C13.3", 11), ("C13.4", 4), ("C13.5", 11), ("C13.6", 15), ("C13.7", 14)):
+    for r_, n in (("C13.1", 95), ("C13.2", 14), ("C13.3", 11), ("C13.4", 4), ("C13.5", 15), ("C13.6", 15), ("C13.7", 14)):
         s.floor(r_, n)
 
 
@@ -285,6 +286,28 @@ def check_rescale(s):
         want = s.ref(bu, "partial(jnp.clip, min=min, max=max)", {"min": ("param", "min"), "max": ("param", "max"), "partial": ("global", "functools.partial")})
         s.ob("C13.5", "ClipReward.__init__", nzu.canon(func) == nzu.canon(want), "ClipReward.func == clip(·, min, max)", s.loc("ClipReward", "__init__"), key="clip-reward",
              detail=show(func or NONE, maxlen=160))
+
+
+def check_constructors(s):
+    """Generic Transform* wrappers store each constructor argument in the like-named field; FlattenObservation flattens with,
+    and advertises a box of, the inner space's flat size."""
+    b = s.builder(inline=set())
+    nz = Normalizer(b)
+    for cls, names in (("TransformAction", ["env", "func", "mask_func", "action_space"]), ("TransformObservation", ["env", "func", "observation_space"]), ("TransformReward", ["env", "func"])):
+        for p in live(s.paths(b, cls, "__init__")):
+            bad = [n for n in names if p.self_attrs.get(n) != ("param", n)]
+            s.ob("C13.5", f"{cls}.__init__", not bad, "every constructor argument is stored in the like-named field", s.loc(cls, "__init__"), key="ctor-alignment", detail=str(bad))
+    for p in live(s.paths(b, "FlattenObservation", "__init__")):
+        env_space = ("attr", ("param", "env"), "observation_space")
+        func = p.self_attrs.get("func")
+        space = p.self_attrs.get("observation_space")
+        okf = func == ("attr", env_space, "flatten_sample")
+        fsp = fields(space) if isinstance(space, tuple) and space[0] == "record" else {}
+        shape = fsp.get("arg:shape")
+        oks = isinstance(space, tuple) and space[0] == "record" and space[1].endswith(".Box") and shape is not None and ("attr", env_space, "flat_size") in set(walk(shape)) \
+            and nz.canon(fsp.get("arg:low", NONE)) == nz.canon(("un", "USub", ("global", "jax.numpy.inf"))) and nz.canon(fsp.get("arg:high", NONE)) == ("k", "inf")
+        s.ob("C13.5", "FlattenObservation.__init__", okf and oks, "FlattenObservation maps with the inner space's flatten_sample and advertises Box(−inf, inf, (flat_size,))",
+             s.loc("FlattenObservation", "__init__"), key="flatten-observation", detail=f"func={show(func or NONE, maxlen=80)} space={show(space or NONE, maxlen=160)}")
 
 
 def check_adapters(s):
